@@ -112,6 +112,7 @@ fn parse_vals(s: &str) -> Option<Vec<i64>> {
 
 fn exec_line(rec: &mut Recorder, inst: &mut Option<Inst>, line: &str) {
     let ws: Vec<&str> = line.split(' ').collect();
+    let mut dead = false;
     let ans: Option<String> = match (ws.as_slice(), inst.as_mut()) {
         (["send", v], Some(i)) => parse_vals(v).map(|vs| {
             for v in vs {
@@ -126,7 +127,15 @@ fn exec_line(rec: &mut Recorder, inst: &mut Option<Inst>, line: &str) {
                 let _ = i.trig.send(0);
             }
             let before: u64 = i.df.current_tick().into();
-            i.df.run_tick_sync();
+            let df = &mut i.df;
+            if let Err(msg) = hv_common::catch(std::panic::AssertUnwindSafe(|| {
+                df.run_tick_sync();
+            })) {
+                // e.g. a reference evaluated after the pipe consumer drained the slot
+                rec.check(false, "tick-panicked-on-reference", &format!("prog={} n={} panic: {}", i.dsl, n, msg.chars().take(120).collect::<String>()));
+                dead = true;
+                return "panic".to_string();
+            }
             let after: u64 = i.df.current_tick().into();
             let recs: Vec<(usize, i64)> = i.out.borrow_mut().drain(..).map(|r| (r.0, r.2)).collect();
             let sent = std::mem::take(&mut i.pending);
@@ -140,6 +149,9 @@ fn exec_line(rec: &mut Recorder, inst: &mut Option<Inst>, line: &str) {
         }),
         _ => None,
     };
+    if dead {
+        *inst = None;
+    }
     rec.line(line, &ans.unwrap_or_else(|| "bad-op".into()));
 }
 
